@@ -1,6 +1,14 @@
 # Per-property run configuration for ./check. "quick"/"thorough" are case counts for rapid tests
 # (thorough counts are split over the shards) or the VERIF_N value handed to plain tests.
 CONFIG = {
+    "C01": {
+        "level": "exploration",
+        "level_text": "generated well-formed feeds rendered to real zip/CSV bytes under generated presentations and compared, whole tree with pointers followed, against an independent reference transcription and against the canonical presentation of the same tables; exploration because the claim is all rows x all columns x all presentations",
+        "level_note": "trusts strconv.ParseFloat for decimal->double and Go's time package for zones; dates avoid days without a unique local midnight (counted); Services compared as an id-keyed set (their order is C06's business); blank lines and header whitespace are not among the listed presentations and are not generated",
+        "technique": "property-based testing (rapid): reference model + metamorphic presentation invariance",
+        "tests": [{"name": "TestC01", "quick": 6000, "thorough": 400000}],
+        "assumptions": ["location_type 0/blank with a parent is the library's Platform (pinned by the suite)"],
+    },
     "C04": {
         "level": "exploration",
         "level_text": "generated conflict-free messages built from association patterns (who carries the link, how the vehicle is identified, entity order) plus an exhaustive pattern x permutation table; the parsed cross references are followed on the real structs and compared with a reference association model",
